@@ -498,19 +498,34 @@ func segsOf(msg *capnp.Message) [][]byte {
 	return segs
 }
 
-func randArena(r *Rand) capnp.Arena {
+// newMsg: a message in a random arena: growing single segment, fresh multi-segment, or several
+// small pre-sized segments (forces far and double-far pointers).
+func newMsg(r *Rand) (*capnp.Message, *capnp.Segment) {
 	switch r.Pick(2, 3, 1) {
 	case 0:
-		return capnp.SingleSegment(nil)
+		msg, seg, err := capnp.NewMessage(capnp.SingleSegment(nil))
+		must(err)
+		return msg, seg
 	case 1:
 		n := 1 + r.Intn(6)
 		bufs := make([][]byte, n)
 		for i := range bufs {
 			bufs[i] = make([]byte, 0, 8*(1+r.Intn(12)))
 		}
-		return capnp.MultiSegment(bufs)
+		// NewMessage refuses an arena with several segments: reserve the root word by hand
+		msg := &capnp.Message{Arena: capnp.MultiSegment(bufs)}
+		seg, err := msg.Segment(0)
+		must(err)
+		_, err = capnp.NewStruct(seg, capnp.ObjectSize{DataSize: 8})
+		must(err)
+		if len(seg.Data()) != 8 {
+			panic("root word not first")
+		}
+		return msg, seg
 	default:
-		return capnp.MultiSegment(nil)
+		msg, seg, err := capnp.NewMessage(capnp.MultiSegment(nil))
+		must(err)
+		return msg, seg
 	}
 }
 
@@ -521,8 +536,7 @@ func EncodeLib(o Opts, root *Val) (segs [][]byte, ok bool) {
 			segs, ok = nil, false
 		}
 	}()
-	msg, seg, err := capnp.NewMessage(randArena(o.R))
-	must(err)
+	msg, seg := newMsg(o.R)
 	b := &lib{o: o, msg: msg, seg: seg}
 	must(msg.SetRoot(b.build(root)))
 	return segsOf(msg), true
@@ -538,8 +552,7 @@ func Recopy(r *Rand, segs [][]byte) (out [][]byte, ok bool) {
 	src := (&rd.Msg{Segs: segs, Arena: "M"}).Build()
 	p, err := src.Root()
 	must(err)
-	msg, _, err := capnp.NewMessage(randArena(r))
-	must(err)
+	msg, _ := newMsg(r)
 	must(msg.SetRoot(p))
 	return segsOf(msg), true
 }
